@@ -6,7 +6,7 @@ import numpy as np
 from pvmon import netgen
 from pvmon.fingerprint import fingerprint, diff, result_bytes
 from pvmon.monitors import Obs
-from pvmon.props.common import rng_for
+from pvmon.props.common import suite_cases, run_suite_case, rng_for
 
 MANIFEST = {
     "text": "Held on every call of the seeded call histories: hook H1 fingerprints every user-facing entry (tables with dtypes/index/row order, fluid, standard types, user options, stored defaults) at pipeflow entry and compares at exit on the normal and the exceptional path; every call is repeated on a fresh build carrying the same edits and must give the same outcome class and bit-identical result tables; heat-only runs from a stored hydraulic solution equal the sequential run.",
@@ -43,7 +43,10 @@ def worker_init(ctx):
 
 
 def gen_cases(tier, seed):
-    return [{"seed": seed, "i": i, "kind": ["hyd", "heat", "heat", "hyd"][i % 4]} for i in range(CONFIG[tier]["cases"])]
+    _cases = [{"seed": seed, "i": i, "kind": ["hyd", "heat", "heat", "hyd"][i % 4]} for i in range(CONFIG[tier]["cases"])]
+    if tier == "thorough":
+        _cases = list(_cases) + suite_cases()
+    return _cases
 
 
 MODES_HEAT = ["hydraulics", "sequential", "bidirectional", "heat", "sequential"]
@@ -134,6 +137,12 @@ def solution_vector(net):
 
 
 def run_case(case, ctx):
+    if case.get("kind") == "repo_suite":
+        obs = Obs()
+        n = run_suite_case(case, "C12", obs)
+        rec = {"nontrivial": n > 0, "sample": {"repo_suite_part": case["part"], "pipeflow_calls_observed": n}, "evaluations": max(n, 1)}
+        rec.update(obs.record())
+        return rec
     spec, nan_outer, calls = make(case)
     obs = Obs()
 
